@@ -518,7 +518,7 @@ Qed.
 Lemma run_cb_d w c : DI w -> DI (run_cb w c).
 Proof.
   intros H. unfold run_cb. destruct (wcrash w); auto. destruct c.
-  - apply resume_d; auto.
+  - destruct (_ <? _)%nat; [apply resume_d; auto|apply crashw_d; auto].
   - exact H.
   - destruct (res_trig_get _ _) as [[k0 r0]|] eqn:E; auto with ddb;
       (apply (upd_node_at (w <| wk := k0 |>)); [side_plain|exact H]).
